@@ -10,7 +10,7 @@ ASSUMPTIONS = [
     "exhaustive only within the alphabet and bounds listed in coverage.bounds",
 ]
 MENU = ["item:c", "item:err", "item:errf", "item:unset", "flush:raise", "flush:raiseB", "flush:new", "flush:setraise", "flush:nested", "flush:hooknested", "flush:fcancel", "flush:setfcancel", "ins:mkitem", "ins:sync", "ins:iv", "ins:cancel", "leaf:re", "leaf:sh", "wrap:try"]
-CATS = ["flush-twice", "flush-empty", "flush-flushed", "flush-active", "flush-after-complete", "not-max-priority", "steer-ignored", "events-bracket", "item-computed-twice", "item-outside-flush", "outcome-mismatch", "r2-menu", "hang", "worker-died"]
+CATS = ["flush-twice", "flush-empty", "flush-flushed", "flush-active", "flush-after-complete", "not-max-priority", "flush-outside-scheduler", "steer-ignored", "events-bracket", "item-computed-twice", "item-outside-flush", "outcome-mismatch", "r2-menu", "hang", "worker-died"]
 _ALLP = {"prio": ["steer", "default", "equal"]}
 LADDER = {"quick": [(5, 0, ["call"], _ALLP), (4, 1, ["call"], _ALLP), (3, 2, ["call"])],
           "thorough": [(6, 0, ["call"], _ALLP), (5, 1, ["call"], _ALLP), (4, 2, ["call"]), (2, 3, ["call"])]}
